@@ -285,11 +285,22 @@ def run(chk):
     C07.check_r3_slots(chk, "default", lib)
     chk.rule_prefix = ""
     chk.rule_filter = None
-    # an event accepted by fibre_eventq_send makes its handler runnable only if every send also wakes it (C06 I2)
+    # an event accepted by fibre_eventq_send makes its handler runnable only if every send also wakes it (C06 I2); a request that
+    # completed before the final check is seen by that check only if the drain is complete (C06 I4)
     from . import C06
     chk.rule_prefix = "C06."
-    chk.rule_filter = lambda r: r.startswith("I2")
+    chk.rule_filter = lambda r: r.startswith(("I2", "I4"))
     C06.check_i2(chk, m, K)
+    C06.check_i4(chk, m, K)
+    chk.rule_prefix = ""
+    chk.rule_filter = None
+    # "any interrupt-context run request that completed": two nested requests both complete only if the queue hands each its
+    # own slot and keeps both flags (C04's hand-out and flag protocol on the queue the scheduler drains)
+    from . import C04
+    chk.rule("C04", "the atomic run queue's hand-out and flag protocol (C04 R1-R6) on the default build")
+    chk.rule_prefix = "C04."
+    chk.rule_filter = lambda r: r.startswith(("R1", "R2", "R3", "R4", "R5", "R6"))
+    C04.run_config(chk, "default")
     chk.rule_prefix = ""
     chk.rule_filter = None
     # a pending timeout is served by the first pass at or after its due time only if expiry is a signed cyclic test
